@@ -117,6 +117,14 @@ def _freqs(draw, k, uniform=False):
     if max(u) - min(u) < 0.05:  # Hypothesis is fond of constant lists: tilt them
         u = [(x + 0.9 * i / (k - 1)) % 1.0 for i, x in enumerate(u)]
     e = [math.exp(spread * (x - max(u))) for x in u]
+    # extreme but admissible corner of the open simplex: one or several entries of
+    # 1e-5 ... 1e-10 next to ordinary ones (quite ordinary for 61 codon frequencies)
+    if draw(st.integers(0, 3)) == 0:
+        nsmall = draw(st.integers(1, max(1, min(k - 1, 3 if k <= 6 else 12))))
+        idx = draw(st.lists(st.integers(0, k - 1), min_size=nsmall, max_size=nsmall, unique=True))
+        big = sum(x for i, x in enumerate(e) if i not in idx)
+        for i in idx:
+            e[i] = big * draw(logu(1e-10, 1e-5))
     tot = sum(e)
     return [x / tot for x in e]
 
